@@ -37,7 +37,7 @@ func TestShapes(t *testing.T) {
 	ev.Assume("time-dependent rewrites (S1012, S1024, S1037) are compared through time-independent observations (sign of a duration far from zero, trace, completion)")
 	perCase := ev.EnvInt("C16_INSTANCES", 16, 24)
 	ev.Check(t, "TestShapes", func(rt *rapid.T) {
-		if pastShare(1.0) {
+		if pastShare(0.85, &shapeCases) {
 			return
 		}
 		files := map[string]string{"prelude.go": prelude}
